@@ -30,19 +30,19 @@ def Stopped (s : St) : Prop :=
 
 theorem main_loop (b : Base) (a0 : Act) (ha0 : a0.A = 0) :
     ∀ (n : Nat) (st : CtlState) (s s' : St), Holds b a0 [] s → (runLoop n st).run s = (.ok (), s') →
-      Holds b a0 [] s' ∧ Stopped s' ∧ TExt s s'
+      Holds b a0 [] s' ∧ Stopped s' ∧ TExt s s' ∧ s'.suspended = s.suspended
   | 0, st, s, s', _, hex => by rw [runLoop_zero] at hex; cases hex
   | n + 1, st, s, s', hh, hex => by
     rw [runLoop] at hex
     by_cases hns : (s.pc = -1 ∨ s.pc ≥ curSize s)
     · simp only [run_bind, run_get, run_ite, hns, if_true, run_pure] at hex
       cases hex
-      exact ⟨hh, Or.inl hns, TExt.refl _⟩
+      exact ⟨hh, Or.inl hns, TExt.refl _, rfl⟩
     · cases hi : (fnOf s s.curfunc).code[s.pc.toNat]? with
       | none =>
         simp only [run_bind, run_get, run_ite, hns, if_false, hi, run_pure] at hex
         cases hex
-        exact ⟨hh, Or.inr hi, TExt.refl _⟩
+        exact ⟨hh, Or.inr hi, TExt.refl _, rfl⟩
       | some i =>
         simp only [run_bind, run_get, run_ite, hns, if_false, hi] at hex
         rcases hx : (exec n i).run s with ⟨r, s1⟩
@@ -54,9 +54,9 @@ theorem main_loop (b : Base) (a0 : Act) (ha0 : a0.A = 0) :
           | zero => simp only [VM.exec, run_throw] at hx; cases hx
           | succ m =>
             have hv : VmStep s s1 := ⟨m, i, hns, hi, hx⟩
-            obtain ⟨hh1, he1⟩ := holds_step_ext hh hv (by rw [ha0]; exact Nat.zero_le _)
-            obtain ⟨r1, r2, r3⟩ := main_loop b a0 ha0 (m + 1) st s1 s' hh1 hex
-            exact ⟨r1, r2, he1.trans r3⟩
+            obtain ⟨hh1, he1, hs1⟩ := holds_step_ext hh hv (by rw [ha0]; exact Nat.zero_le _)
+            obtain ⟨r1, r2, r3, r4⟩ := main_loop b a0 ha0 (m + 1) st s1 s' hh1 hex
+            exact ⟨r1, r2, he1.trans r3, r4.trans hs1⟩
 
 /-- when the loop has stopped, the bottom activation is the only one, and it is the top-level
 text (an activation with a return address never runs off its end) -/
@@ -245,7 +245,7 @@ theorem loaded_running {s1 : St} (code : List Instr) (as : List AState) (N : Nat
     (hoids : idsIn (fnOf s1 mainFn).code 0 N) (hids : idsIn code N s1.loops.length) (hN : N ≤ s1.loops.length)
     (hpc : s1.pc = ((fnOf s1 mainFn).code.length : Int)) (hcode : AllOK (szS s1) code)
     (hfrag : FragOK mainEnv (B s1.loops code) as) (h0 : as[0]? = some restState) :
-    ∃ b a0, b.main = true ∧ a0.A = 0 ∧ Holds b a0 [] (loaded s1 code) := by
+    ∃ b a0, b.main = true ∧ a0.A = 0 ∧ b.linear = s1.linear ∧ Holds b a0 [] (loaded s1 code) := by
   obtain ⟨s2, hs2⟩ : ∃ s2, s2 = loaded s1 code := ⟨_, rfl⟩
   have hw2 : WF s2 := by rw [hs2]; exact wf_loaded code hw
   have hmain : fnOf s2 mainFn = { (fnOf s1 mainFn) with code := (fnOf s1 mainFn).code ++ code } := by
@@ -297,7 +297,7 @@ theorem loaded_running {s1 : St} (code : List Instr) (as : List AState) (N : Nat
     · show (if true = true then s2.addr = [] else _)
       rw [if_pos rfl]; exact ha2
   subst hs2
-  exact ⟨b, a0, rfl, rfl, hw2, [], a0, [], hrun, rfl⟩
+  exact ⟨b, a0, rfl, rfl, rfl, hw2, [], a0, [], hrun, rfl⟩
 
 /-- **`Run` on a loaded text that returns a value leaves the interpreter at rest**, with the
 table invariant and the facts about `mainfunc` kept. `s1` is the state after `LoadExpressions`
@@ -312,7 +312,7 @@ theorem run_loaded {s1 : St} (code : List Instr) (as : List AState) (τ : AState
     (hk : τ.k = 0) (hfr : τ.frames = []) (hb : τ.base ≤ 1)
     (hex : (run fuel).run (loaded s1 code) = (.ok v, s')) :
     WF s' ∧ MainOK s' ∧ s'.data = [] ∧ s'.linear = s1.linear ∧ s'.addr = [] ∧ s'.loopstack = [] ∧ s'.curfunc = mainFn ∧
-      vok s'.fns.length v = true := by
+      vok s'.fns.length v = true ∧ s'.suspended = s1.suspended := by
   obtain ⟨s2, hs2⟩ : ∃ s2, s2 = loaded s1 code := ⟨_, rfl⟩
   rw [← hs2] at hex
   have hw2 : WF s2 := by rw [hs2]; exact wf_loaded code hw
@@ -375,7 +375,7 @@ theorem run_loaded {s1 : St} (code : List Instr) (as : List AState) (τ : AState
     cases r with
     | error e => cases hex
     | ok u =>
-      obtain ⟨hh3, hst3, he3⟩ := main_loop b a0 rfl n _ s2 s3 ⟨hw2, [], a0, [], hrun, rfl⟩ hl
+      obtain ⟨hh3, hst3, he3, hsu3⟩ := main_loop b a0 rfl n _ s2 s3 ⟨hw2, [], a0, [], hrun, rfl⟩ hl
       obtain ⟨hw3, hr3, ha3⟩ := main_end hh3 hst3
       -- where the loop stopped: at the end of `mainfunc`
       have hok3 := hr3.ok
@@ -440,7 +440,8 @@ theorem run_loaded {s1 : St} (code : List Instr) (as : List AState) (τ : AState
       rcases hdd : s3.data with _ | ⟨c, rest⟩
       · simp only [hdd, List.isEmpty_nil, if_true, run_bind, Sim.run_pushData, run_popData] at hex
         cases hex
-        exact ⟨hw3.setData [] s3.pc (fun c hc => by cases hc), ⟨hm3.user, hm3.code, hm3.ids, hm3.pc⟩, rfl, hlin3, ha3, hw3.loopstack, hc3, rfl⟩
+        exact ⟨hw3.setData [] s3.pc (fun c hc => by cases hc), ⟨hm3.user, hm3.code, hm3.ids, hm3.pc⟩, rfl, hlin3, ha3, hw3.loopstack, hc3, rfl,
+          hsu3.trans (by rw [hs2]; rfl)⟩
       · rw [hdd] at hdata3
         have hb1 : a.base = 1 ∧ rest = [] ∧ cellOf c = .val := by
           rcases Nat.lt_or_ge a.base 1 with h | h
@@ -460,7 +461,7 @@ theorem run_loaded {s1 : St} (code : List Instr) (as : List AState) (τ : AState
           simp only [hdd, List.isEmpty_cons, Bool.false_eq_true, if_false, run_pure, run_popData] at hex
           cases hex
           exact ⟨hw3.setData [] s3.pc (fun c hc => by cases hc), ⟨hm3.user, hm3.code, hm3.ids, hm3.pc⟩, rfl, hlin3, ha3, hw3.loopstack, hc3,
-            vok_of_cell (hw3.data_head hdd) hcell⟩
+            vok_of_cell (hw3.data_head hdd) hcell, hsu3.trans (by rw [hs2]; rfl)⟩
 
 /-! ## One text -/
 
@@ -469,6 +470,13 @@ structure Served (s : St) : Prop where
   wf : WF s
   main : MainOK s
   rest : AtRest s
+  susp : s.suspended = []
+
+theorem load_susp {s s1 : St} {α : Type} (g : G α) (r : α) (h : (runGen g).run s = (.ok r, s1)) : s1.suspended = s.suspended := by
+  rw [run_runGen] at h
+  split at h
+  · cases h; rfl
+  · cases h
 
 theorem runText_loaded (fuel : Nat) (es : List Expr) (s s1 : St) (code : List Instr) (t : Bool) (hpc : curSize s ≤ s.pc)
     (hload : (runGen (compileBegin (isFnScope { s with trace := [] }) {} es)).run { s with trace := [] } = (.ok (code, t), s1)) :
@@ -482,7 +490,7 @@ theorem runText_loaded (fuel : Nat) (es : List Expr) (s s1 : St) (code : List In
 the invariants and is at rest: afterwards the invariants hold and the interpreter is at rest. -/
 theorem runText_ok (fuel : Nat) (es : List Expr) (s s' : St) (v : String) (tr : List String) (d : String) (alive : Bool)
     (hs : Served s) (hok : okLs es = true) (h : runText fuel es s = (Outcome.done "ok" v tr d, s', alive)) : Served s' := by
-  obtain ⟨hw, hm, hd, hl, ha, hls, hcf, hpc⟩ := hs
+  obtain ⟨hw, hm, ⟨hd, hl, ha, hls, hcf, hpc⟩, hsusp⟩ := hs
   obtain ⟨s0, hs0⟩ : ∃ s0 : St, s0 = { s with trace := [] } := ⟨_, rfl⟩
   have hw0 : WF s0 := by
     rw [hs0]
@@ -514,10 +522,10 @@ theorem runText_ok (fuel : Nat) (es : List Expr) (s s' : St) (v : String) (tr : 
       have hidx : mainFn < s0.fns.length := by have := hw0.two; show 0 < s0.fns.length; omega
       have hfo : fnOf s1 mainFn = fnOf s mainFn := by rw [he1.fnOf mainFn hidx, hs0]; rfl
       have hsz : (szS s).le (szS s1) := by have := he1.sz; rw [hs0] at this; exact this
-      obtain ⟨r1, r2, r3, r4, r5, r6, r7, _⟩ := run_loaded code as τ s0.loops.length fuel val s' hw1
+      obtain ⟨r1, r2, r3, r4, r5, r6, r7, _, r9⟩ := run_loaded code as τ s0.loops.length fuel val s' hw1
         (by rw [d1, hs0]; exact hd) (by rw [a1, hs0]; exact ha) (by rw [hfo]; exact hm.user) (by rw [hfo]; exact hm.code.mono hsz)
         (by rw [hfo, hs0]; exact hm.ids) hids he1.loops_len (by rw [p1, hfo, hs0]; exact hm.pc) hcode hfrag h0 hτ hk hfr hb hr
-      refine ⟨r1, r2, r3, by rw [r4, l1, hs0]; exact hl, r5, r6, r7, ?_⟩
+      refine ⟨r1, r2, ⟨r3, by rw [r4, l1, hs0]; exact hl, r5, r6, r7, ?_⟩, by rw [r9, load_susp _ _ hload, hs0]; exact hsusp⟩
       have hcs : curSize s' = ((fnOf s' mainFn).code.length : Int) := by
         simp [curSize, r7, r2.user]
       rw [hcs, r2.pc]
